@@ -12,7 +12,7 @@ from __future__ import annotations
 
 import itertools
 
-from harness.c09 import Boom, Ref, coq_bop, digest, exact, rand_bop
+from harness.c09 import Boom, Ref, coq_bop, digest, exact, pull_case, rand_bop
 from harness.common import Failure, Spec, coq_list
 
 LONGEST = 2147483
@@ -242,7 +242,8 @@ def compaction_case(rng):
 
 
 ALPHABET = [[["later", 0]], [["later", 1]], [["later", 2]], [["adv", 1], ["run"]], [["run"]], [["cancel", 0]],
-            [["reset", 1, 1]], [["reset", 0, 0]], [["delay", 0, 1]], [["delay", 1, -1]], [["timeout"]]]
+            [["reset", 1, 1]], [["reset", 0, 0]], [["delay", 0, 1]], [["delay", 1, -1]], [["timeout"]], [["delay", 0, -2]],
+            [["reset", 0, 3]]]
 EXH_BODIES = [[["later", 0], ["reset", 1, 0]], [["cancel", 2], ["delay", 0, 1]],
               [["later", 1], ["later", 1], ["reset", 3, 1]], [["snap"]]]
 EXH_BODIES_RAISE = [[["later", 0], ["raise"], ["reset", 1, 0]], [["raise"]],
@@ -254,9 +255,9 @@ def gen(rng, tier):
     depth = 4 if tier == "quick" else 5
     for n in range(1, depth + 1):
         for word in itertools.product(range(len(ALPHABET)), repeat=n):
-            if n == depth and rng.random() > (0.02 if tier == "quick" else 0.01):
+            if n == depth and rng.random() > (0.012 if tier == "quick" else 0.006):
                 continue
-            if n == depth - 1 and rng.random() > (0.3 if tier == "quick" else 0.5):
+            if n == depth - 1 and rng.random() > (0.2 if tier == "quick" else 0.3):
                 continue
             ops = [o for a in word for o in ALPHABET[a]]
             ops += [["snap"], ["adv", 1], ["run"], ["snap"], ["timeout"], ["adv", 3], ["run"], ["snap"]]
@@ -267,6 +268,8 @@ def gen(rng, tier):
         cases.append(rand_case(rng, rng.randrange(5, 40), neg=True))
     for _ in range(12 if tier == "quick" else 120):
         cases.append(compaction_case(rng))
+    for _ in range(120 if tier == "quick" else 2500):     # postponed, then pulled back by a negative delay()
+        cases.append(pull_case(rng, lambda a: [["adv", a], ["run"], ["timeout"]]))
     return cases
 
 
@@ -283,6 +286,10 @@ def corpus():
         {"k": 0, "ops": [["later", 1], ["cancel", 0], ["timeout"], ["later", 1], ["run"], ["adv", 1], ["run"]],
          "bodies": []},
         compaction_fixed(),
+        # a postponement is outstanding when a negative delay() arrives: 5 + 2 - 3 = 4 (not 5 - 3); in the heap and staged
+        {"k": 0, "ops": [["later", 5], ["later", 3], ["run"], ["delay", 0, 2], ["delay", 0, -3], ["snap"], ["adv", 2], ["run"], ["snap"],
+                         ["adv", 2], ["run"], ["snap"], ["later", 4], ["reset", 2, 9], ["delay", 2, -6], ["snap"], ["adv", 3], ["run"],
+                         ["snap"], ["timeout"]], "bodies": []},
         # a call function raises: logged, the iteration goes on with the other due calls
         {"k": 0, "ops": [["later", 5], ["later", 5], ["later", 5], ["adv", 5], ["run"], ["snap"], ["run"], ["snap"]],
          "bodies": [[["later", 0], ["raise"], ["cancel", 1]], [["raise"]]]},
@@ -352,11 +359,11 @@ SPEC = Spec(
     model_equal=lambda c, impl_obs, model_obs: digest(impl_obs) == model_obs,
     nontrivial=lambda c, o: "(r" in o,
     histogram=histogram,
-    rule="every word of length <= 4 (quick: length 3 sampled 30%, length 4 sampled 2%) / <= 5 (thorough, length 4 50%, length 5 1%) "
-         "over an 11-letter alphabet {callLater 0/1/2, advance 1 + iteration, iteration, cancel #0, reset #1 +1, "
-         "reset #0 +0, delay #0 +1, delay #1 -1, timeout()} with a fixed table of call bodies, without, and with a table whose functions raise, each followed "
+    rule="every word of length <= 4 (quick: length 3 sampled 20%, length 4 sampled 1.2%) / <= 5 (thorough, length 4 30%, length 5 0.6%) "
+         "over a 13-letter alphabet {callLater 0/1/2, advance 1 + iteration, iteration, cancel #0, reset #1 +1, "
+         "reset #0 +0, reset #0 +3, delay #0 +1, delay #0 -2, delay #1 -1, timeout()} with a fixed table of call bodies, without, and with a table whose functions raise, each followed "
          "by snapshots, two iterations and a timeout(); random histories of 5-70 operations with random body tables "
-         "(scales 2^0..2^-20, tie-heavy delays, 2^30-size delays); a stream with negative reset()/delay() arguments; "
+         "(scales 2^0..2^-20, tie-heavy delays, 2^30-size delays); a stream with negative reset()/delay() arguments; a stream that postpones a call and then pulls it back with delay(-b), b >, =, < the outstanding postponement; "
          "compaction histories: 52-74 calls on 1-29 distinct times, 49..n of them cancelled (> 50 and more than half "
          "the heap triggers filter + heapify), followed by resets/delays and iterations that expose the heap order; "
          "non-trivial = at least one call ran; distinct by (case, observation)",
